@@ -12,7 +12,8 @@ def log(*a):
 
 
 class Job:
-    def __init__(s, unit, h, label=None, unwind=6, timeout=120, extra=()):
+    def __init__(s, unit, h, label=None, unwind=6, timeout=120, extra=(), strats=None):
+        s.strats = strats
         s.unit = unit; s.h = h; s.label = label or unit.index[h]['conf']
         s.unwind = unwind; s.timeout = timeout; s.extra = extra
         s.res = None; s.cex = []
@@ -33,14 +34,17 @@ def split_traces(out):
 HINTS_PATH = os.path.join(VERIF, 'strategy.json')
 try: HINTS = json.load(open(HINTS_PATH))
 except Exception: HINTS = {}
+ND_PATH = os.path.join(VERIF, 'not_decided.json')
+try: NOT_DECIDED = json.load(open(ND_PATH))
+except Exception: NOT_DECIDED = {}
 STRATS = ['n', 'p', 'nk', 'pk', 'nkg', 'nkG']   # n: one multi-path-merging BMC query; p: cbmc --paths lifo (no merging); *k: one query per event kind;
 # g: additionally case-split on the first guard site the reference consults; G: on all sites it consults (one query per reference path;
 # payload and all other guard bits stay symbolic)
 
 
-def cbmc_once(job, strat, kind, witness, trace, timeout, gfix=None):
+def cbmc_once(job, strat, kind, witness, trace, timeout, gfix=None, xtra=()):
     u = job.unit
-    extra = list(job.extra) + ['--verbosity', '8']
+    extra = list(job.extra) + ['--verbosity', '8'] + list(xtra)
     if 'p' in strat: extra += ['--paths', 'lifo']
     if kind is not None: extra += ['-DVF_KIND=%d' % kind]
     if gfix is not None: extra += ['-DVF_GFIX_MASK=%du' % gfix[0], '-DVF_GFIX_VAL=%du' % gfix[1]]
@@ -76,14 +80,21 @@ def merge_results(rs):
 
 
 def attempt(job, strat, timeout):
-    kinds = list(range(job.unit.nevents)) if ('k' in strat and job.unit.nevents > 1) else [None]
-    subs = [(k, gfix) for k in kinds for gfix in guard_splits(job, strat, k)]
+    ix = job.unit.index[job.h]
+    nalt = ix.get('nalt', 1); has_ev = ix.get('has_ev', True)
+    if 'k' in strat and (job.unit.nevents > 1 or nalt > 1):
+        subs = []
+        if has_ev: subs += [(k, gfix, 0 if nalt > 1 else None) for k in range(job.unit.nevents) for gfix in guard_splits(job, strat, k)]
+        subs += [(None, None, a) for a in range(1 if has_ev else 0, nalt)]
+    else:
+        subs = [(None, None, None)]
     def one(sub):
-        k, gfix = sub
-        r = cbmc_once(job, strat, k, True, False, timeout, gfix)
+        k, gfix, sel = sub
+        xtra = ['-DVF_SEL=%d' % sel] if sel is not None else []
+        r = cbmc_once(job, strat, k, True, False, timeout, gfix, xtra)
         if r['verdict'] == 'failed' and any('witness:reachable' not in f[1] for f in r['failed']):
             # obtain one counterexample per failed assertion
-            r2 = cbmc_once(job, strat, k, False, True, timeout * 2, gfix)
+            r2 = cbmc_once(job, strat, k, False, True, timeout * 2, gfix, xtra)
             r['traces'] = r2.get('traces', {})
             r['time'] += r2['time']
         return r
@@ -96,8 +107,9 @@ def attempt(job, strat, timeout):
 def run_job(job):
     u = job.unit
     key = '%s|be%s|p%d' % (u.name, u.be, job.h)
-    first = HINTS.get(key, 'n')
-    order = [first] + [x for x in STRATS if x != first]
+    base = job.strats or STRATS
+    first = HINTS.get(key, base[0])
+    order = [first] + [x for x in base if x != first]
     tried = []
     r = None
     for strat in order:
@@ -170,7 +182,16 @@ class Check:
         s.t_build = time.time() - s.t0
 
     def solve(s):
-        log('[%s] %d CBMC queries on %d workers' % (s.prop, len(s.jobs), NPAR))
+        # configurations for which no strategy gives a verdict within the budget are listed in not_decided.json
+        # (committed, written only with VF_LEARN=1): they are skipped and reported, never counted as success
+        s.skipped = []
+        keep = []
+        for j in s.jobs:
+            k = '%s|be%s' % (j.unit.name, j.unit.be)
+            if j.unit.index[j.h]['conf'] in NOT_DECIDED.get(k, []): s.skipped.append('%s: %s' % (k, j.unit.index[j.h]['conf']))
+            else: keep.append(j)
+        s.jobs = keep
+        log('[%s] %d CBMC queries on %d workers (%d configurations listed as not decided are skipped)' % (s.prop, len(s.jobs), NPAR, len(s.skipped)))
         t = time.time()
         with cf.ThreadPoolExecutor(NPAR) as ex:
             list(ex.map(run_job, s.jobs))
@@ -233,6 +254,13 @@ class Check:
             seen.add(key); uv.append(v)
         violations = uv
         wall = time.time() - s.t0
+        if os.environ.get('VF_LEARN_ND'):
+            for j, why in inconclusive:
+                if why == 'timeout':
+                    k = '%s|be%s' % (j.unit.name, j.unit.be)
+                    NOT_DECIDED.setdefault(k, [])
+                    if j.unit.index[j.h]['conf'] not in NOT_DECIDED[k]: NOT_DECIDED[k].append(j.unit.index[j.h]['conf'])
+            json.dump(NOT_DECIDED, open(ND_PATH, 'w'), indent=1, sort_keys=True)
         if os.environ.get('VF_LEARN'):
             for j in s.jobs:
                 k = '%s|be%s|p%d' % (j.unit.name, j.unit.be, j.h)
@@ -288,6 +316,7 @@ class Check:
                 'bounds': s.bounds,
                 'inconclusive': [('%s be%s p%d' % (j.unit.name, j.unit.be, j.h), why) for j, why in inconclusive],
                 'known_findings_hit': sorted(set(k['id'] for _, k in knowns)),
+                'not_decided_skipped': getattr(s, 'skipped', []),
                 'strategies_used': {st: sum(1 for j in s.jobs if j.res.get('strategy') == st) for st in STRATS},
             },
             'assumptions': s.assumptions + [
